@@ -20,6 +20,13 @@ Proof. exact inv_empty. Qed.
 Theorem C18_inv_step_detach_self_partial : forall H ct s a s' ob,
   Inv H ct s -> step H ct s (ODetachSelf a) = (s', ob) -> Inv H ct s'.
 Proof. exact inv_step_detach_self. Qed.
+(* attach() of an attached node, detach() of a detached node or of a node that has a parent return at once and
+   leave the state as it is (so they preserve every invariant) *)
+Theorem C18_inv_step_noops_partial : forall H ct s a,
+  (detached s a = false -> step H ct s (OAttach a) = (s, RNone)) /\
+  (detached s a = true -> step H ct s (ODetach a) = (s, RBool true)) /\
+  (detached s a = false -> is_attached_root s a = false -> step H ct s (ODetach a) = (s, RBool false)).
+Proof. exact inv_step_noops. Qed.
 (* premises inhabited, and the step is not a no-op: after detach_self of the inner node its child is an attached root *)
 Example C18_inv_step_detach_self_example :
   exists s, run_ok empty_st [leaf "a"; inner (Some 0) None []] = Some s /\
@@ -41,6 +48,15 @@ Theorem C18_queries_parent_holds_child_partial : forall H ct s a p,
   LInv H ct s -> live s a -> attached s a -> parent s a = Some p ->
   exists f, In (a, f, c_pi (cellD s a)) (skids_wf s p).
 Proof. exact parent_holds_child. Qed.
+(* premises inhabited: a state inside the invariant in which an attached node has a parent *)
+Example C18_LInv_example :
+  exists s, run_ok empty_st [leaf "a"; inner (Some 0) None []] = Some s /\ LInv Hid ct0 s /\
+            live s 0 /\ attached s 0 /\ parent s 0 = Some 1.
+Proof. exact linv_example. Qed.
+Example C18_noops_example :
+  exists s, run_ok empty_st [leaf "a"; inner (Some 0) None []; leaf "b"; ODetach 2] = Some s /\
+            detached s 0 = false /\ is_attached_root s 0 = false /\ detached s 2 = true.
+Proof. eexists. repeat split; vm_compute; reflexivity. Qed.
 (* premises inhabited: a leaf under an inner node *)
 Example C18_queries_example :
   exists s, run_ok empty_st [leaf "a"; inner (Some 0) None []] = Some s /\
